@@ -61,9 +61,17 @@ def bounded_task():
         if bad:
             r2.replay = {"confirmed": True, "input": bad[0][0], "actual": repr(bad[0][1])[:300], "expected": repr(bad[0][2])[:300], "how": "real loaders"}
             r2.witness = bad[0][0]
+        t2 = time.time()
+        bad3 = c15.argv_case()
+        r3 = OR(id=f"{PROP}.Bd.loaders.real_command_line_without_options", status=REFUTED if bad3 else PROVED, kind="Bd", role="bounded", target="ford.initialize (real argparse)",
+                desc="ford.initialize() with a real argv that names only the project file, the file (project metadata / fpm.toml) setting every switch and several valued options: "
+                     "all of them keep the file's value", bound=f"{len(c15.FILE_VALUES)} options x 2 formats", cases=2 * len(c15.FILE_VALUES), seconds=time.time() - t2, backend="enumeration")
+        if bad3:
+            r3.replay = {"confirmed": True, "input": bad3[0][0], "actual": repr(bad3[0][1])[:300], "expected": repr(bad3[0][2])[:300], "how": "ford.initialize() with sys.argv = ['ford', <project file>]"}
+            r3.witness = bad3[0][0]
         diffs = c15.config_diffs()
         new = [d for d in diffs if d not in c15.CONFIG_KNOWN]
-        out = [r, r2]
+        out = [r, r2, r3]
         k = OR(id=f"{PROP}.Bd.loaders.config_vs_toml", status=REFUTED if (set(diffs) & c15.CONFIG_KNOWN) else PROVED, kind="Bd", role="bounded", target="ford.parse_arguments (--config block)",
                desc="options given through --config get the same normalisation as options from a settings file", bound=f"{c15.count_cases()} pairs", cases=c15.count_cases(),
                backend="enumeration", known="C15-config-bypass")
@@ -80,12 +88,48 @@ def bounded_task():
     return Task(f"{PROP}.Bd.loaders", PROP, "real loaders", run)
 
 
+def argparse_task():
+    """the command line overrides a file value only where an option is *present*: convert_types_from_commandarguments treats every value that is not None as given.  So every
+    argument declared in get_command_line_arguments must yield None when absent: argparse does that for `store` / `append` actions without a default, and for the
+    store_true / store_false switches only with an explicit default=None."""
+    def run():
+        import ast, os
+        src = open(os.path.join(os.path.dirname(loader.module_path("ford.output")), "__init__.py"), encoding="utf-8").read()
+        fns = [n for n in ast.walk(ast.parse(src)) if isinstance(n, ast.FunctionDef) and n.name == "get_command_line_arguments"]
+        if not fns:
+            return [OR(id=f"{PROP}.S.argparse.absent_means_None", status="unknown", kind="S", target="ford.get_command_line_arguments", detail="function not found")]
+        out = []
+        for c in ast.walk(fns[0]):
+            if not (isinstance(c, ast.Call) and isinstance(c.func, ast.Attribute) and c.func.attr == "add_argument"):
+                continue
+            names = [a.value for a in c.args if isinstance(a, ast.Constant) and isinstance(a.value, str)]
+            kw = {k.arg: k.value for k in c.keywords}
+            action = kw["action"].value if "action" in kw and isinstance(kw["action"], ast.Constant) else "store"
+            if action in ("version", "help") or (names and not names[0].startswith("-")):
+                continue            # no option value / the positional project file
+            if "default" in kw:
+                ok = isinstance(kw["default"], ast.Constant) and kw["default"].value is None
+            else:
+                ok = action in ("store", "append", "extend")
+            r = OR(id=f"{PROP}.S.argparse.{names[-1].lstrip('-') if names else 'arg'}.absent_means_None", status=PROVED if ok else REFUTED, kind="S", role="pre", backend="ast",
+                   target="ford.get_command_line_arguments", desc=f"{'/'.join(names)} (action {action}): argparse yields None when the option is not on the command line")
+            if not ok:
+                from bounded import c15
+                bad = c15.argv_case()
+                r.witness = {"argument": names, "action": action, "default": ast.unparse(kw["default"]) if "default" in kw else "<argparse default for the action>"}
+                r.detail = "an absent switch yields a non-None value, which overrides the value of the settings file"
+                r.replay = {"confirmed": bool(bad), "input": "ford <project file>   (no options)", "actual": repr(bad[:2])[:400], "expected": "file values kept", "how": "ford.initialize() with a real argv"} if bad else None
+            out.append(r)
+        return out
+    return Task(f"{PROP}.S.argparse", PROP, "ford.get_command_line_arguments", run)
+
+
 def build(tier, seed):
     set_tier(tier)
     def _meta():
         return metadata.meta_preprocessor(PROP)
     _meta.__name__ = "meta_preprocessor"
-    tasks = [a_task(PROP, settingsc.parse_to_dict), a_task(PROP, _meta), order_task(), bounded_task(),
+    tasks = [a_task(PROP, settingsc.parse_to_dict), a_task(PROP, _meta), order_task(), argparse_task(), bounded_task(),
              Task(f"{PROP}.B.meta_patterns", PROP, "META_RE / META_MORE_RE", lambda: metadata.rx_obligations(PROP))]
     meta = {
         "trusted_base": TRUSTED_BASE,
